@@ -474,3 +474,83 @@ pub fn check_c14() -> Result<String, String> {
     } }
     Ok(format!("{} cases", n))
 }
+
+// ---------------------------------------------------------------------------------------------
+// C12 oracle: a range splits into complete rank pairs and leftovers
+use espada::hand_range::RankPair;
+
+fn all_rank_pairs() -> Vec<RankPair> {
+    let mut v = vec![];
+    for a in 0..13 { v.push(RankPair::Pocket(RANKS[a])); }
+    for a in 0..13 { for b in (a + 1)..13 { v.push(RankPair::Suited(RANKS[a], RANKS[b])); v.push(RankPair::Ofsuit(RANKS[a], RANKS[b])); } }
+    v
+}
+
+fn combos_fp(rp: RankPair) -> Vec<CardPair> {
+    // first principles: all suit assignments the notation denotes
+    let mut v = vec![];
+    match rp {
+        RankPair::Pocket(r) => { for i in 0..4 { for j in (i + 1)..4 { v.push(CardPair::new(Card::new(r, SUITS[i]), Card::new(r, SUITS[j]))); } } }
+        RankPair::Suited(h, k) => { for i in 0..4 { v.push(CardPair::new(Card::new(h, SUITS[i]), Card::new(k, SUITS[i]))); } }
+        RankPair::Ofsuit(h, k) => { for i in 0..4 { for j in 0..4 { if i != j { v.push(CardPair::new(Card::new(h, SUITS[i]), Card::new(k, SUITS[j]))); } } } }
+    }
+    v
+}
+
+pub fn check_c12(entries: &Vec<(CardPair, f32)>) -> Result<String, String> {
+    let range: HandRange = entries.iter().cloned().collect();
+    let m = range.card_pairs();
+    let (rps, orph) = match std::panic::catch_unwind(|| (range.rank_pairs(), range.orphan_card_pairs())) { Ok(x) => x, Err(_) => return Err("rank_pairs / orphan_card_pairs panicked".to_string()) };
+    let mut covered = std::collections::HashSet::new();
+    for rp in all_rank_pairs() {
+        let cs = combos_fp(rp);
+        let first = m.get(&cs[0]).copied();
+        let complete = first.is_some() && cs.iter().all(|c| m.get(c).map(|w| *w == first.unwrap()).unwrap_or(false));
+        match rps.get(&rp) {
+            Some(w) => {
+                if !complete { return Err(format!("{} reported with weight {} but its combos are not all present with one weight", rp, w)); }
+                if Some(*w) != first && !(w.is_nan() && first.unwrap().is_nan()) { return Err(format!("{} reported with weight {} but its combos carry {:?}", rp, w, first)); }
+            }
+            None => if complete { return Err(format!("{} is complete (weight {:?}) but not reported", rp, first)); },
+        }
+        if complete { for c in cs { covered.insert(c); } }
+    }
+    if rps.len() != all_rank_pairs().iter().filter(|rp| rps.contains_key(rp)).count() { return Err("rank_pairs() reports a rank pair outside pocket/suited/offsuit with the high card first".to_string()); }
+    for (cp, w) in m.iter() {
+        let o = orph.get(cp);
+        if covered.contains(cp) { if o.is_some() { return Err(format!("{} is covered by a reported rank pair but also a leftover", cp)); } }
+        else { match o { None => return Err(format!("{} is in the range, not covered, and missing from the leftovers", cp)),
+                         Some(x) => if x != w && !(x.is_nan() && w.is_nan()) { return Err(format!("leftover {} has weight {} instead of {}", cp, x, w)); } } }
+    }
+    for cp in orph.keys() { if !m.contains_key(cp) { return Err(format!("leftover {} is not in the range", cp)); } }
+    Ok(format!("{} combos, {} rank pairs, {} leftovers", m.len(), rps.len(), orph.len()))
+}
+
+pub fn c12_search(seed: u64, n: u64) -> i32 {
+    std::panic::set_hook(Box::new(|_| {}));
+    let mut rng = Rng(seed ^ 0xC12);
+    let rps = all_rank_pairs();
+    for it in 0..n {
+        // a few rank pairs, each with an absent / weight-a / weight-b pattern over its combos
+        let mut entries: Vec<(CardPair, f32)> = vec![];
+        let k = 1 + rng.below(4);
+        for _ in 0..k {
+            let rp = rps[rng.below(rps.len() as u64) as usize];
+            let mode = rng.below(4);
+            for c in combos_fp(rp) {
+                let pick = match mode { 0 => 1, 1 => rng.below(3), 2 => 1 + rng.below(2) / 1 * (rng.below(8) == 0) as u64, _ => (rng.below(6) != 0) as u64 };
+                if pick == 0 { continue; }
+                let w = if pick == 1 { 0.5 } else { 0.25 };
+                if !entries.iter().any(|e| e.0 == c) { entries.push((c, w)); }
+            }
+        }
+        if let Err(e) = check_c12(&entries) {
+            let d: Vec<String> = entries.iter().map(|(p, w)| format!("{}:{}", p, w)).collect();
+            println!("WITNESS c12 {} :: {}", d.join(","), e);
+            println!("SEARCH tried={} found=1", it + 1);
+            return 1;
+        }
+    }
+    println!("SEARCH tried={} found=0", n);
+    0
+}
